@@ -13,6 +13,7 @@ From Borno Require Import EnvLaws.
 From Borno Require Import EvalInv.
 From Borno Require Import EvalFrame.
 From Borno Require Import ScenarioExamples.
+From Borno Require Import ClosureExamples.
 
 (** a name denotes the binding of the innermost scope on the parent chain that has one; unbound iff no scope on the chain binds it; never an artefact of the walk *)
 Theorem C03_env_get_innermost :
@@ -266,3 +267,10 @@ Theorem C03_scenario_shadowing :
   transcript src_shadowing = Some ([[51]; [51]; [49]; [49; 48]; [49]], 0).
 Proof. exact (@scenario_shadowing). Qed.
 Print Assumptions C03_scenario_shadowing.
+
+(** a for header that declares a LIST of names keeps both in the loop's own scope: an outer binding of the same name is shadowed and survives, a second loop may declare them again - evaluated inside the kernel from source text (transcript = the real interpreter's) *)
+Theorem C03_for_list_header_scope :
+  printed (run_source libm_d (f_of_bits 0) sched_d 400 false for_list_header_src []) =
+         Some [[51; 51]; [55]; [51; 57]].
+Proof. exact (@ClosureExamples.for_list_header_scope). Qed.
+Print Assumptions C03_for_list_header_scope.
